@@ -196,6 +196,57 @@ def run(prog, tier) -> Result:
     cr.run("R12.5", prog.method("MoneyConverter", "__call__"), "never None", setup_call,
            lambda o: ("money converter returns None", "") if (o.kind == "return" and isinstance(o.value, NoneV)) else None)
 
+    # ---- R12.6 "the same converter" is identity: `conv not in list` and `list.remove(conv)` compare with ==, so two
+    # different converters (same coverage, different results) must not compare equal - evaluated on the classes' own
+    # __eq__, if they define one (today: none does)
+    from ..engine_a import run_body
+    from ..models import DictV
+    from ..report import Violation
+
+    def conv_pair(cname):
+        def body(I, c):
+            st = c.st
+            ci = prog.cls(cname)
+            if cname == "MoneyConverter":
+                c.new_type("M", **FLAVORS["money"])
+                base = c.unit("base", "M")
+                mk = lambda tag: ObjV(ci, tag, {"_base_currency": base, "_rate_dict": DictV([(TupleV([NONE, c.unit("ct", "M")]),
+                                                                                         c.num("rate" + tag, "dec"))]),
+                                                  "_type_of_validity": TypeV("NoneType"),
+                                                  "_get_dflt_effective_date": OpaqueV("fn:dfltdate")})
+            else:
+                c.new_type("T", **FLAVORS["noref"])
+                u1, u2 = c.unit("u1", "T"), c.unit("u2", "T")
+                st.distinct_units("u1", "u2")
+                mk = lambda tag: ObjV(ci, tag, {"_unit_map": DictV([(TupleV([u1, u2]),
+                                                                      TupleV([c.num("f" + tag, "dec"), c.num("o" + tag, "dec")]))])})
+            a, b = mk("a"), mk("b")
+            eq = I.models.compare(ast.Eq, a, b, None)
+            return BoolV(I.models.truth(eq, None))
+        return body
+    for cname in ("TableConverter", "MoneyConverter"):
+        if not prog.has_cls(cname):
+            continue
+        site = f"{cname}.__eq__"
+        case = "two converters with the same coverage and different results are different converters"
+        outs = run_body(prog, conv_pair(cname), max_depth=10)
+        res.paths += len(outs)
+        fails = []
+        for o in outs:
+            if o.kind == "return" and isinstance(o.value, BoolV) and o.value.val:
+                fails.append(Violation("R12.6", site, case, "distinct converters compare equal",
+                                       "`conv not in converters` / `converters.remove(conv)` then treat a different converter as "
+                                       "already registered / remove another one", list(o.trace)))
+            elif o.kind == "raise":
+                fails.append(Violation("R12.6", site, case, exc_sig(o), "comparison of two converters raises", list(o.trace)))
+        res.obligations += 1
+        res.evaluations += max(1, len(outs))
+        res.rules["R12.6"] = res.rules.get("R12.6", 0) + 1
+        res.nontrivial_keys.add(("R12.6", site, case))
+        if not fails:
+            res.discharged += 1
+        res.violations.extend(fails)
+
     # ---- R12.4 ownership
     writes = inventory(prog)
     cg = CallGraph(prog)
@@ -204,7 +255,7 @@ def run(prog, tier) -> Result:
         # what the mutators do to the list is decided by the typestate judges above (R12.1-R12.3)
         "QuantityMeta.register_converter": {"*"}, "QuantityMeta.remove_converter": {"*"},
         "MoneyMeta.register_converter": {"*"}, "MoneyMeta.remove_converter": {"*"}}, cg))
-    res.require("R12.4", 6)
+    res.require("R12.4", 4)
     # no function hands out the list itself (aliasing would bypass the owner API)
     leaks = []
     for fi in prog.all_functions():
